@@ -19,7 +19,7 @@ var kinds = []string{
 	"p-finish", "p-finish",
 	"p-release",
 	"p-return", "p-return", "p-return",
-	"p-forward", "p-forward", "p-echo",
+	"p-forward", "p-forward", "p-echo", "p-disembargo", "p-disembargo",
 	"open", "open", "p-pause", "p-wait-impl",
 	"a-boot", "a-boot",
 	"a-call", "a-call", "a-call",
@@ -39,6 +39,9 @@ func randStep(t *rapid.T) vat.Step {
 
 // skeletons that make the rarer protocol situations common; drawn steps are interleaved with them
 var skeletons = map[string][]vat.Step{
+	// B pipelines on a call whose result turns out to be B's own capability; A forwards the pipelined calls back; B
+	// sends Disembargo(senderLoopback) and A echoes it after the forwarded calls
+	"peer-embargo": {{K: "p-boot"}, {K: "barrier"}, {K: "p-call", A: 0, B: 0x21, C: 2}, {K: "p-pcall", A: 15}, {K: "p-pcall", A: 14}, {K: "open"}, {K: "barrier"}, {K: "p-pcall", A: 14}, {K: "p-disembargo"}, {K: "p-call", A: 0}},
 	// the peer's bootstrap capability turns out to be one of A's own objects after the application already called it
 	"embargo-bootstrap": {{K: "p-boot"}, {K: "a-boot"}, {K: "a-call", A: 15}, {K: "a-call", A: 15}, {K: "p-return", C: 5}, {K: "a-call", A: 15}, {K: "p-forward"}, {K: "p-forward"}, {K: "p-echo"}, {K: "a-call", A: 15}},
 	// two result pointers of one call, both pipelined on, both resolve to A's own objects
@@ -46,6 +49,7 @@ var skeletons = map[string][]vat.Step{
 	// a chain of calls pipelined on held calls
 	"pipeline-chain": {{K: "p-boot"}, {K: "p-call", B: 1 | 1<<4}, {K: "p-pcall", A: 15, B: 1 | 1<<4}, {K: "p-pcall", A: 15, B: 1 << 4}, {K: "p-pcall", A: 14, B: 0}, {K: "p-pcall", A: 15, B: 0}, {K: "open"}, {K: "p-call", A: 15}, {K: "open"}},
 }
+
 // an answer's queue is replayed while its target is busy with a call it has not acknowledged, and a further call on
 // the same pipeline arrives during the replay (no drawn steps in between: the indices matter; always in burst mode)
 var busyReplay = []vat.Step{{K: "p-boot"}, {K: "barrier"}, {K: "p-call", A: 0, B: 0x10}, {K: "barrier"}, {K: "a-boot"}, {K: "p-return", A: 0, B: 1, C: 5 | 1<<6}, {K: "barrier"},
@@ -57,7 +61,7 @@ var busyReplay = []vat.Step{{K: "p-boot"}, {K: "barrier"}, {K: "p-call", A: 0, B
 	// one and holds up the replay, the second and third go to the fresh one)
 	{K: "p-call", A: 0, B: 0x63, C: 12}, {K: "p-pcall", A: 2}, {K: "p-pcall", A: 2, C: 24}, {K: "p-sync"}, {K: "open", A: 0}, {K: "p-wait-impl"}, {K: "p-pcall", A: 2, C: 24}, {K: "p-pause", A: 3}, {K: "open", A: 0}}
 
-var shapes = []string{"", "", "", "", "embargo-bootstrap", "embargo-bootstrap", "embargo-two-paths", "embargo-two-paths", "pipeline-chain", "pipeline-chain", "busy-replay"}
+var shapes = []string{"", "", "", "", "peer-embargo", "embargo-bootstrap", "embargo-bootstrap", "embargo-two-paths", "embargo-two-paths", "pipeline-chain", "pipeline-chain", "busy-replay"}
 
 func genCase(t *rapid.T) vat.Case {
 	c := vat.Case{CloseAt: -1, Burst: rapid.Bool().Draw(t, "burst")}
@@ -85,8 +89,8 @@ func genCase(t *rapid.T) vat.Case {
 
 var _ = pbt.Register(pbt.Spec[vat.Case]{
 	Property: "C06", Name: "history-model",
-	Rule:     "history = optional mutual Bootstrap prefix + 3-40 drawn steps over {peer: Bootstrap, Call on an export (returning / held / failing / returning a new object or echoing a parameter capability, once or twice), Call pipelined on an answer that has or has not returned (paths [], [0], [1], [0,0]), Finish before or after the Return (with/without releaseResultCaps), Release, Return for the Conn's questions (results with B-hosted or A-hosted capabilities, or exception), forwarding of pipelined calls back to A, Disembargo echo; application: Bootstrap, calls on clients (pending bootstrap, resolved imports, A-local capabilities, with capability parameters), calls pipelined on answers before/after their Return, taking capabilities out of results, cancellation, releases; gate openings}. The peer obeys the protocol (forwards before echoing, answers every question exactly once). Non-trivial: >= 3 calls, at least one pipelined on a not-yet-returned answer, at least one Finish.",
-	Quick:    2000, Thorough: 20000,
-	Gen:      genCase,
-	Run:      func(c vat.Case) (pbt.Result, error) { return vat.Run(c, vat.Options{Returns: true}) },
+	Rule:  "history = optional mutual Bootstrap prefix + 3-40 drawn steps over {peer: Bootstrap, Call on an export (returning / held / failing / returning a new object or echoing a parameter capability, once or twice), Call pipelined on an answer that has or has not returned (paths [], [0], [1], [0,0]), Finish before or after the Return (with/without releaseResultCaps), Release, Return for the Conn's questions (results with B-hosted or A-hosted capabilities, or exception), forwarding of pipelined calls back to A, Disembargo echo; application: Bootstrap, calls on clients (pending bootstrap, resolved imports, A-local capabilities, with capability parameters), calls pipelined on answers before/after their Return, taking capabilities out of results, cancellation, releases; gate openings}. The peer obeys the protocol (forwards before echoing, answers every question exactly once). Non-trivial: >= 3 calls, at least one pipelined on a not-yet-returned answer, at least one Finish.",
+	Quick: 2000, Thorough: 20000,
+	Gen: genCase,
+	Run: func(c vat.Case) (pbt.Result, error) { return vat.Run(c, vat.Options{Returns: true}) },
 })
